@@ -18,3 +18,4 @@ __CPROVER_assigns(__CPROVER_object_upto(arcbuf, arcbuf_len))
 __CPROVER_ensures(__CPROVER_return_value == -1 || (__CPROVER_return_value >= 1 && __CPROVER_return_value <= 5 && (size_t)__CPROVER_return_value <= arcbuf_len))
 __CPROVER_ensures((value < 128 && arcbuf_len >= 1) ==> (__CPROVER_return_value == 1 && arcbuf[0] == value))
 ;
+
